@@ -40,13 +40,30 @@ func main() {
 					d = 0
 				}
 				tk.Schedule(d, nodeimpl.Atoi(w[1]), nodeimpl.Atoi(w[2]), pbft.RoundStepType(nodeimpl.Atoi(w[3])))
-				// whatever fires does so within microseconds; allow for a loaded machine
-				if t, ok := tk.Fired(40 * time.Millisecond); ok {
-					out := fmt.Sprintf("fired=%d/%d/%d", t.Height, t.Round, t.Step)
-					if t2, again := tk.Fired(5 * time.Millisecond); again {
-						out += fmt.Sprintf(" fired=%d/%d/%d", t2.Height, t2.Round, t2.Step)
+				// whatever fires does so within microseconds; allow for a loaded machine.
+				// NewTimeoutTicker arms its timer with 0 and stops it at once; under the timer semantics this
+				// module is built with (go.mod < 1.23) a fire that was already under way can still arrive, and
+				// the routine relays it as the zero timeoutInfo. handleTimeout drops it (height 0 is never the
+				// node's height), so it is counted here and not compared.
+				var outs []string
+				wait := 40 * time.Millisecond
+				for {
+					t, ok := tk.Fired(wait)
+					if !ok {
+						break
 					}
-					return out
+					if t.Height == 0 && t.Round == 0 && t.Step == 0 {
+						r.Count("spurious-zero-timeout")
+						continue
+					}
+					wait = 5 * time.Millisecond
+					outs = append(outs, fmt.Sprintf("fired=%d/%d/%d", t.Height, t.Round, t.Step))
+					if len(outs) == 2 {
+						break
+					}
+				}
+				if len(outs) > 0 {
+					return strings.Join(outs, " ")
 				}
 				return "none"
 			}
